@@ -130,6 +130,10 @@ def judge_eval(ctx, case, r, m):
         out['verdict'] = 'skip:badjson'; return out
     if 'skipped' in r or 'skipped' in m:
         out['verdict'] = 'skip:not_run_after_repeated_timeouts'; return out
+    if status_of(r) in ('panic', 'abort', 'timeout', 'docchanged'):
+        out['verdict'] = 'viol'; out['why'] = status_of(r); return out
+    if 'impl' not in m:          # the model gave no answer within its limit (very deep document on a loaded machine): nothing to compare with
+        out['verdict'] = 'skip:model_gave_no_answer'; return out
     flags = m.get('flags') or {}
     if flags.get('regex_unsupported'):
         out['verdict'] = 'skip:regex_unsupported'; return out
@@ -168,11 +172,30 @@ def judge_eval(ctx, case, r, m):
     return out
 
 
+def json_depth_exceeds(v, limit):
+    stack = [(v, 1)]
+    while stack:
+        x, d = stack.pop()
+        if isinstance(x, (list, dict)):
+            if d > limit: return True
+            for y in (x if isinstance(x, list) else x.values()): stack.append((y, d + 1))
+    return False
+
+
 def harness_line(l):
-    """serde_json refuses input nested deeper than 128 levels; the tagged copy of a deep document (which only the Lean driver
-    reads) is twice as deep as the document, so it is dropped from the harness's copy of long lines"""
+    """serde_json refuses input nested deeper than 128 levels. The tagged copy of a document (which only the Lean driver reads) is twice as
+    deep as the document, so it is dropped from the harness's copy of long lines; and a document that is itself too deep is sent as its inner
+    part plus the list of single-child containers around it (`wrap`, outermost first: "[]" or "." + member name), which the harness rebuilds in code."""
     if len(l) < 1500 or '"tdoc"' not in l: return l
     c = json.loads(l); c.pop('tdoc', None); c.pop('tdocs', None)
+    d = c.get('doc')
+    if json_depth_exceeds(d, 90):
+        wrap = []
+        while json_depth_exceeds(d, 90) and ((isinstance(d, list) and len(d) == 1) or (isinstance(d, dict) and len(d) == 1)):
+            if isinstance(d, list): wrap.append('[]'); d = d[0]
+            else:
+                k = next(iter(d)); wrap.append('.' + k); d = d[k]
+        c['doc'] = d; c['wrap'] = wrap
     return json.dumps(c, ensure_ascii=False)
 
 
@@ -243,6 +266,8 @@ def corpus_lines(name, prop=None):
 # ------------------------------------------------------------------------------------------------ parse
 def judge_parse(ctx, s, r, m):
     if 'skipped' in r or 'skipped' in m: return {'corr': False, 'verdict': 'ok'}
+    if status_of(r) in ('panic', 'abort', 'timeout'): return {'corr': False, 'verdict': 'viol', 'why': status_of(r)}
+    if 'impl' not in m or 'rfc' not in m: return {'corr': False, 'verdict': 'ok'}
     if ctx.prop in ('C06', 'C07', 'C08'):
         scope = {'C06': m['rfc'] == 'valid', 'C07': m['rfc'] == 'invalid', 'C08': True}[ctx.prop]
         out = {'corr': scope and status_class(r) != status_class(m['impl']), 'verdict': 'ok'}
@@ -288,6 +313,8 @@ def needs_escape(k):
 
 
 def judge_ref(ctx, c, r, m):
+    if status_of(r) in ('panic', 'abort', 'timeout'): return {'corr': False, 'verdict': 'viol', 'why': status_of(r), 'kf': []}
+    if 'impl' not in m: return {'corr': False, 'verdict': 'skip:model_gave_no_answer', 'kf': []}
     out = {'corr': norm({k: r.get(k) for k in ('ref', 'mut', 'after', 'panic')}) != norm({k: m['impl'].get(k) for k in ('ref', 'mut', 'after', 'panic')}), 'verdict': 'ok', 'kf': []}
     if status_of(r) in ('panic', 'abort', 'timeout'):
         out['verdict'] = 'viol'; out['why'] = status_of(r); return out
@@ -327,6 +354,44 @@ def ref_suite(ctx, name, lines, res):
     res.suite_info.append({'suite': name, **info})
 
 
+def longref_cases(tier):
+    """Normalized Paths of nodes nested far deeper than any JSON text the crate's own parser would read (documents built in code): long paths"""
+    out = []
+    for n in [150, 600, 2000, 6000] + ([10000] if tier == 'thorough' else []):
+        for kind in ('a', 'o', 'ao'):
+            for leaf, new in ((7, 'NEW'), ({'leaf': [1, 'x']}, [None])):
+                out.append(json.dumps({'mode': 'longref', 'n': n, 'kind': kind, 'leaf': leaf, 'new': new}))
+    return out
+
+
+def longref_suite(ctx, name, lines, res):
+    """harness only, one process per case; the expectation is the lens law itself: the path of an existing node designates that node and a write
+    through it replaces exactly that node"""
+    info = collections.Counter()
+    for ln in lines:
+        c = json.loads(ln); n = c['n']
+        steps = [(0 if (c['kind'] == 'a' or (c['kind'] == 'ao' and i % 2 == 0)) else 'n') for i in range(n)]
+        wrap = ['[]' if st == 0 else '.n' for st in steps]
+        path = '$' + ''.join('[0]' if st == 0 else "['n']" for st in steps)
+        def chain(v):
+            for st in reversed(steps): v = [v] if st == 0 else {'n': v}
+            return v
+        out = run_lines(HBIN, 'ref', [json.dumps({'doc': c['leaf'], 'wrap': wrap, 'path': path, 'new': c['new']})], timeout=30)
+        r = json.loads(out[0]); st = status_of(r)
+        res.stats['cases'] += 1; info['cases'] += 1; res.stats['longref_' + ('found_and_written' if r.get('mut') else st)] += 1
+        res.nontrivial.add(chash([n, c['kind'], c['leaf']]))
+        why = None
+        if st in ('panic', 'abort', 'timeout'): why = st
+        elif not r.get('ref') or not r.get('mut'): why = 'reference/reference_mut does not find the node its Normalized Path designates'
+        elif r['ref'].get('l') == 'NOTFOUND' or len(r['ref'].get('l') or []) != n or norm(r['ref'].get('v')) != norm(tag(c['leaf'])): why = 'reference returns another node than the path designates'
+        elif norm(r.get('after')) != norm(tag(chain(c['new']))): why = 'a write through reference_mut did not replace exactly the designated node'
+        if why:
+            res.violations.append({'suite': name, 'mode': 'longref', 'case': {**c, 'path_prefix': path[:40], 'path_segments': n},
+                                   'real': {k: (v if len(json.dumps(v)) < 300 else '…') for k, v in r.items()}, 'model': None, 'why': why, 'full_case': c}); info['violations'] += 1
+        elif len(res.samples) < 6: res.samples.append({'suite': name, 'segments': n, 'kind': c['kind']})
+    res.suite_info.append({'suite': name, **info})
+
+
 def refseq_suite(ctx, name, lines, res):
     """updates through all paths one query returned, in result order: (paths, which writes happened, document afterwards)"""
     if not lines: return
@@ -342,6 +407,7 @@ def refseq_suite(ctx, name, lines, res):
         if flags.get('regex_unsupported'): res.stats['skip:regex_unsupported'] += 1; continue
         if status_of(r) in ('panic', 'abort', 'timeout'):
             res.violations.append({'suite': name, 'mode': 'refseq', 'case': c, 'real': r, 'model': m, 'why': status_of(r)}); info['violations'] += 1; continue
+        if 'impl' not in m: res.stats['skip:model_gave_no_answer'] += 1; continue
         corr = norm(r) != norm(m['impl'])
         if corr: res.corr_fail.append({'suite': name, 'mode': 'refseq', 'case': c, 'real': r, 'model': m}); info['corr_fail'] += 1
         if m.get('rfc') in ('invalid', 'unjudged', None) or 'spec' not in m: res.stats['skip:rfc_' + str(m.get('rfc'))] += 1; continue
@@ -448,6 +514,7 @@ def generic_suite(ctx, name, lines, res):
         if 'skipped' in a or 'skipped' in b1 or 'skipped' in b2 or 'skipped' in m or 'badjson' in a: res.stats['skip:not_run'] += 1; continue
         pa = proj_eval('C15', a)
         if (m.get('flags') or {}).get('regex_unsupported'): res.stats['skip:regex_unsupported'] += 1; continue
+        if 'impl' not in m: res.stats['skip:model_gave_no_answer'] += 1; continue
         pm = proj_eval('C15', m['impl'])
         if pa[0] == 'ok' and pa[1]: res.nontrivial.add(chash([c['q'], c['doc']]))
         for which, b in (('structural-eq type', b1), ('value-eq type', b2)):
@@ -475,6 +542,7 @@ def group_suite(ctx, name, lines, res):
         c = json.loads(ln); r = json.loads(rl); m = json.loads(ml)
         res.stats['cases'] += 1; info['spellings'] += 1
         if (m.get('flags') or {}).get('regex_unsupported'): continue
+        if 'impl' not in m: res.stats['skip:model_gave_no_answer'] += 1; continue
         pr = proj_eval('C13', r); pi = proj_eval('C13', m['impl'])
         if pr != pi: res.stats['info_spelling_differs_from_model'] += 1     # informational: the function itself is C01's business
         groups[c['group']].append((c, r, m, pr, pi))
@@ -523,6 +591,44 @@ def ladder_suite(ctx, name, lines, res):
     res.suite_info.append({'suite': name, **info})
 
 
+def pumped_suite(ctx, name, lines, res):
+    """long queries built by repetition at a starred position of the ABNF: the oracle judges the same shape at n = 3, the real parser gets the long one
+    (one process per case)"""
+    if not lines: return
+    cases = [json.loads(l) for l in lines]
+    shorts = sorted({c['short'] for c in cases})
+    verdict = {}
+    for sh, ml in zip(shorts, run_sharded(MBIN, 'parse', shorts)):
+        m = json.loads(ml); verdict[sh] = m.get('rfc')
+    # the oracle on the long string itself (where it answers within the limit; otherwise the verdict of the same shape at n = 3 stands,
+    # since repetition at a starred position of the ABNF keeps a valid query valid)
+    from concurrent.futures import ThreadPoolExecutor
+    with ThreadPoolExecutor(NCPU) as ex:
+        longm = list(ex.map(lambda c: run_lines(MBIN, 'parse', [c['q']], timeout=120)[0], cases))
+    for c, ml in zip(cases, longm):
+        m = json.loads(ml)
+        c['rfc_long'] = m.get('rfc'); c['impl_long'] = None if 'impl' not in m else status_class(m['impl'])
+    info = collections.Counter()
+    for c in cases:
+        out = run_lines(HBIN, 'parse', [c['q']], timeout=20)
+        r = json.loads(out[0]); st = status_of(r)
+        res.stats['cases'] += 1; info['cases'] += 1; res.stats['pumped_' + st] += 1
+        rfc = c['rfc_long'] or verdict.get(c['short'])
+        res.stats['pumped_oracle_' + ('on_long_query' if c['rfc_long'] else 'on_short_form')] += 1
+        if c['impl_long'] is not None and c['impl_long'] != status_class(r) and not (st in ('panic', 'abort', 'timeout')):
+            res.corr_fail.append({'suite': name, 'mode': 'pumped', 'case': {'shape': c['shape'], 'n': c['n']}, 'real': {'status': st}, 'model': {'impl_status': c['impl_long']}}); info['corr_fail'] += 1
+        if rfc != 'valid': res.stats['skip:not_valid'] += 1; continue
+        res.nontrivial.add(chash([c['shape'], c['n']]))
+        why = None
+        if st in ('panic', 'abort', 'timeout'): why = st
+        elif ctx.prop == 'C06' and st != 'ok': why = 'valid query rejected'
+        if why:
+            res.violations.append({'suite': name, 'mode': 'pumped', 'case': {'shape': c['shape'], 'n': c['n'], 'short': c['short'], 'q_prefix': c['q'][:60], 'q_len': len(c['q'])},
+                                   'real': r if len(json.dumps(r)) < 2000 else {'status': st}, 'model': {'rfc': rfc, 'judged_on': 'long query' if c['rfc_long'] else 'same shape at n=3'}, 'why': why, 'full_case': {k: v for k, v in c.items() if k not in ('rfc_long', 'impl_long')}}); info['violations'] += 1
+        elif len(res.samples) < 3: res.samples.append({'suite': name, 'shape': c['shape'], 'n': c['n'], 'outcome': st})
+    res.suite_info.append({'suite': name, **info})
+
+
 # ------------------------------------------------------------------------------------------------ per-property plans
 def run(ctx, round_no=0):
     res = Res()
@@ -539,6 +645,8 @@ def run(ctx, round_no=0):
         if first: eval_suite(ctx, 'small-scope', g('gen_small.py', p, seed, 6000 * S), res)
         eval_suite(ctx, 'random', g('gen_eval.py', seed, 12000 * S), res)
         if p == 'C03': eval_suite(ctx, 'paths-of-all-nodes', g('gen_paths.py', seed, 3000 * S), res)
+        if p == 'C01': eval_suite(ctx, 'targeted-filters', g('gen_targeted.py', 'c10', seed, 1500 * S) + g('gen_targeted.py', 'c05', seed, 1500 * S) + g('gen_targeted.py', 'c14', seed, 1000 * S)
+                                  + g('gen_targeted.py', 'c04', seed, 1500 * S) + g('gen_targeted.py', 'c15', seed, 500 * S), res)
         if p == 'C01': parse_suite(ctx, 'parser-ast', g('gen_abnf.py', seed, 5000 * S), res)
         if p == 'C01': eval_suite(ctx, 'programmatic-asts', g('gen_ast.py', seed, 5000 * S), res, mode='ast')
     elif p in ('C04', 'C05', 'C10', 'C11', 'C14'):
@@ -559,6 +667,7 @@ def run(ctx, round_no=0):
         parse_suite(ctx, 'corpus', corpus_lines_raw('parse.txt'), res) if first and corpus_lines_raw('parse.txt') else None
         parse_suite(ctx, 'abnf-sentences+mutants', g('gen_abnf.py', seed, 15000 * S), res)
         parse_suite(ctx, 'token-soup', g('gen_parse.py', seed, 15000 * S), res)
+        if first and p == 'C06': pumped_suite(ctx, 'long-queries', gen('gen_pumped.py', ctx.tier), res)
     elif p == 'C08':
         res.rule = ('all parser strings of C06/C07 plus integer extremes in every integer position, scalar/empty documents and nesting ladders, run in isolated '
                     'worker processes with overflow checks; outcome must be Ok/Err (no panic, abort, timeout); evaluation of a parsed query must be Ok; '
@@ -571,6 +680,7 @@ def run(ctx, round_no=0):
         eval_suite(ctx, 'programmatic-asts', g('gen_ast.py', seed, 6000 * S), res, mode='ast')
         eval_suite(ctx, 'random', g('gen_eval.py', seed, 6000 * S), res)
         if first: ladder_suite(ctx, 'nesting-ladders', gen('gen_ladder.py', ctx.tier), res)
+        if first: pumped_suite(ctx, 'long-queries', gen('gen_pumped.py', ctx.tier), res)
     elif p == 'C09':
         res.rule = ('(document, path, new value): Normalized Path of every kind of node (names with / ~ quotes digits blanks), one-step-off absent locations, '
                     'non-path queries; compared: found node by address, write result, whole document after the write; spec = lens laws on locations')
@@ -579,6 +689,7 @@ def run(ctx, round_no=0):
         eval_suite(ctx, 'query-paths-fed-back', g('gen_eval.py', seed, 6000 * S) + g('gen_small.py', p, seed, 3000 * S), res)
         refseq_suite(ctx, 'update-sequences', g('gen_refseq.py', seed, 5000 * S), res)
         ref_suite(ctx, 'ref', g('gen_ref.py', seed, 12000 * S), res)
+        if first: longref_suite(ctx, 'long-paths', longref_cases(ctx.tier), res)
     elif p == 'C12':
         res.rule = ('histories: seeded sequences of evaluations interleaving several queries and documents, each also by pre-parsed query and from N threads '
                     'sharing one Arc; plus the three entry points compared position by position on random cases')
@@ -594,6 +705,7 @@ def run(ctx, round_no=0):
                     'paths and values must be equal position by position; all equal the model')
         generic_suite(ctx, 'second-queryable', g('gen_eval.py', seed, 10000 * S), res)
         generic_suite(ctx, 'targeted-functions', g('gen_targeted.py', 'c10', seed, 3000 * S) + g('gen_targeted.py', 'c14', seed, 3000 * S) + g('gen_targeted.py', 'c04', seed, 3000 * S), res)
+        generic_suite(ctx, 'singular-queries', g('gen_targeted.py', 'c15', seed, 2000 * S), res)
     else:
         raise SystemExit('unknown property ' + p)
     return res
@@ -669,6 +781,9 @@ def replay(ctx, path):
     elif mode == 'parse':
         if isinstance(c, dict): ladder_suite(ctx, 'replay', [json.dumps(c)], res)
         else: parse_suite(ctx, 'replay', [c], res)
+    elif mode == 'longref': longref_suite(ctx, 'replay', [json.dumps(c)], res)
+    elif mode == 'run': ladder_suite(ctx, 'replay', [json.dumps(c)], res)
+    elif mode == 'pumped': pumped_suite(ctx, 'replay', [json.dumps(c)], res)
     elif mode == 'ref': ref_suite(ctx, 'replay', [json.dumps({**c, 'tdoc': tag(c['doc']), 'tnew': tag(c['new'])}, ensure_ascii=False)], res)
     elif mode == 'regex': regex_suite(ctx, 'replay', [json.dumps(c, ensure_ascii=False)], res)
     elif mode == 'refseq': refseq_suite(ctx, 'replay', [json.dumps({**c, 'tdoc': tag(c['doc']), 'tnews': [tag(v) for v in c['news']]}, ensure_ascii=False)], res)
